@@ -269,43 +269,60 @@ def run(ctx):
     ctx.floor('R16.5', 'client/cache pairings examined', n_pairs, 10)
 
     # ---- R16.6 registry ------------------------------------------------------------------------------------------------
+    # (on the normal form: the private attach / detach helpers of the registry are part of Manager::create / Manager::detach;
+    # who performs Arc::downgrade - the helper or its caller - makes no difference)
+    REG = 'deadpool_postgres::StatementCaches.'
+    def registry_calls(b_, meth):
+        an_ = prog.an(b_)
+        out = []
+        for blk in b_.blocks:
+            t_ = blk.term
+            if t_.kind == 'call' and not blk.cleanup and t_.args and any(n.startswith('std::vec::Vec::') and n.split('::')[-1] == meth for n in t_.callee_names()):
+                if any(s_[0] == 'field' and s_[1].startswith(REG) for s_ in sources(an_, t_.args[0], deep=True)):
+                    out.append(blk)
+        return out
     cr = B('<deadpool_postgres::Manager as deadpool::managed::Manager>::create::{closure#0}', True)
     cran = prog.an(cr)
-    att = [blk for blk in cr.blocks if blk.term.kind == 'call' and not blk.cleanup and blk.term.rcallee == 'deadpool_postgres::StatementCaches::attach']
+    att = registry_calls(cr, 'push')
     oks = [bb for bb, cls, det in cran.ret_assignments() if cls == 'ok']
     okc = len(att) == 1 and bool(oks) and all(bb not in cran.reach([0], ('normal',), avoid=[att[0].idx]) for bb in oks)
-    ctx.ob('R16.6', 'every successful create registers the statement cache', okc, ctx.where(cr), '', construct='create:attach')
+    ctx.ob('R16.6', 'every successful create registers the statement cache', okc, ctx.where(cr), '%d pushes into the registry' % len(att), construct='create:attach')
     if att and oks:
-        st = [s for s in cr.blocks[oks[0]].stmts if s.kind == 'assign' and s.place.local == 0][-1]
-        wl = sources(cran, st.rv.ops[0]); al = sources(cran, att[0].term.args[1])
+        st = [s for s in cr.blocks[oks[0]].stmts if s.kind == 'assign' and s.place.is_local()][-1]
+        wl = sources(cran, st.rv.ops[0], deep=True); al = sources(cran, att[0].term.args[1], deep=True)
         same = {x for x in wl if x[0] == 'call' and 'ClientWrapper::new' in x[1]} & {x for x in al if x[0] == 'call' and 'ClientWrapper::new' in x[1]}
         ctx.ob('R16.6', 'the cache attached is the one of the wrapper returned', bool(same) and any(x[0] == 'field' and x[1].endswith('ClientWrapper.statement_cache') for x in al), ctx.where(cr, att[0].term.line), '', construct='create:attach-arg')
+        ctx.ob('R16.6', 'attach registers a weak handle', any(s[0] == 'call' and s[1].endswith('Arc::downgrade') for s in al), ctx.where(cr, att[0].term.line), '', construct='registry:attach')
     dt = B('<deadpool_postgres::Manager as deadpool::managed::Manager>::detach', True)
     dan = prog.an(dt)
-    fw = [blk for blk in dt.blocks if blk.term.kind == 'call' and not blk.cleanup and blk.term.rcallee == 'deadpool_postgres::StatementCaches::detach']
-    ctx.ob('R16.6', 'Manager::detach forwards the object\'s cache to the registry', len(fw) == 1 and any(x[0] == 'field' and x[1].endswith('ClientWrapper.statement_cache') for x in sources(dan, fw[0].term.args[1])),
-           ctx.where(dt), '', construct='detach:forward')
-    sd = B('deadpool_postgres::StatementCaches::detach')
-    rcl = closure_args_of(prog, sd, ['std::vec::Vec::retain'])
-    okr = False
-    if len(rcl) == 1:
-        cb = rcl[0][1]
-        ctx.saw(cb)
-        can = prog.an(cb)
-        pe = [blk for blk in cb.blocks if blk.term.kind == 'call' and any(n.endswith('Weak::ptr_eq') for n in blk.term.callee_names())]
-        if len(pe) == 1:
-            # returns NOT ptr_eq
-            rsrc = set()
-            for blk in cb.blocks:
-                for s in blk.stmts:
-                    if s.kind == 'assign' and s.place.local == 0:
-                        rsrc |= {('rv', s.rv.kind, s.rv.binop)}
-                        rsrc |= sources(can, s.rv.ops[0]) if s.rv.ops else set()
-            okr = ('rv', 'un', 'Not') in rsrc or any(x[0] == 'bin' and x[1] == 'Not' for x in rsrc)
-    ctx.ob('R16.6', 'the registry drops exactly the pointer-equal entries', okr, ctx.where(sd), '', construct='registry:detach')
-    sa = B('deadpool_postgres::StatementCaches::attach')
-    pushes = [blk for blk in sa.blocks if blk.term.kind == 'call' and not blk.cleanup and any(n.startswith('std::vec::Vec::') and n.endswith('::push') for n in blk.term.callee_names())]
-    ctx.ob('R16.6', 'attach registers a weak handle', len(pushes) == 1 and any(s[0] == 'call' and s[1].endswith('Arc::downgrade') for s in sources(prog.an(sa), pushes[0].term.args[1])), ctx.where(sa), '', construct='registry:attach')
+    fw = registry_calls(dt, 'retain')
+    ctx.ob('R16.6', 'Manager::detach filters the registry', len(fw) == 1, ctx.where(dt), '%d retain calls on the registry' % len(fw), construct='detach:forward')
+    okr = False; okarg = False
+    if len(fw) == 1:
+        rcl = [cb for blk, cb in closure_args_of(prog, dt, ['std::vec::Vec::retain']) if blk.idx == fw[0].idx]
+        if len(rcl) == 1:
+            cb = rcl[0]
+            ctx.saw(cb)
+            can = prog.an(cb)
+            pe = [blk for blk in cb.blocks if blk.term.kind == 'call' and any(n.endswith('Weak::ptr_eq') for n in blk.term.callee_names())]
+            if len(pe) == 1:
+                # returns NOT ptr_eq
+                rsrc = set()
+                for blk in cb.blocks:
+                    for s in blk.stmts:
+                        if s.kind == 'assign' and s.place.local == 0:
+                            rsrc |= {('rv', s.rv.kind, s.rv.binop)}
+                            rsrc |= sources(can, s.rv.ops[0]) if s.rv.ops else set()
+                okr = ('rv', 'un', 'Not') in rsrc or any(x[0] == 'bin' and x[1] == 'Not' for x in rsrc)
+                # compared with (a weak handle of) the cache of the object being detached: the closure captures it from detach()
+                caps = [s_ for blk in dt.blocks for s_ in blk.stmts if s_.kind == 'assign' and s_.rv.kind == 'agg' and s_.rv.j.get('ak') == 'closure' and s_.rv.j.get('def') == cb.path]
+                if caps:
+                    csrc = set()
+                    for o_ in caps[0].rv.ops:
+                        csrc |= sources(dan, o_, deep=True)
+                    okarg = any(x[0] == 'field' and x[1].endswith('ClientWrapper.statement_cache') for x in csrc) and any(x[0] == 'call' and x[1].endswith('Arc::downgrade') for x in csrc)
+    ctx.ob('R16.6', 'the registry drops exactly the pointer-equal entries', okr, ctx.where(dt), '', construct='registry:detach')
+    ctx.ob('R16.6', 'Manager::detach forwards the object\'s cache to the registry', okarg, ctx.where(dt), '', construct='detach:forward-arg')
     for fn, inner in (('clear', SC + '::clear'), ('remove', SC + '::remove')):
         b = B('deadpool_postgres::StatementCaches::' + fn)
         ban = prog.an(b)
